@@ -1,5 +1,5 @@
 ------------------------------ MODULE CodecGen ------------------------------
-(* The document space of Codec, depth <= 1 completely (every tag x every shape, containers holding every depth-0 document),
+(* The document space of Codec, depth <= 1 completely (depth 2 on request) (every tag x every shape, containers holding every depth-0 document),
    plus variable-map documents; written as symbolic descriptions that the harness renders to JSON text. *)
 EXTENDS Codec, Json, IOUtils, TLC
 D0 == [i \in 1..(Len(Tags) * Len(Shapes)) |->
@@ -8,11 +8,15 @@ Leaf == SelectSeq(D0, LAMBDA d : ~NeedsChild(d.shape))
 Nesting == SelectSeq(D0, LAMBDA d : NeedsChild(d.shape))
 D1 == [i \in 1..(Len(Nesting) * Len(Leaf)) |->
          [Nesting[((i - 1) \div Len(Leaf)) + 1] EXCEPT !.child = <<Leaf[((i - 1) % Len(Leaf)) + 1]>>]]
+\* depth 2: every nesting document around every depth-1 document (thorough tier; the check samples it by stride)
+D2 == [i \in 1..(Len(Nesting) * Len(D1)) |->
+         [Nesting[((i - 1) \div Len(D1)) + 1] EXCEPT !.child = <<D1[((i - 1) % Len(D1)) + 1]>>]]
 VARIABLE k
 Init == k = 0
 Next == /\ k = 0
         /\ ndJsonSerialize(IOEnv.OUT \o ".0", Leaf)
         /\ ndJsonSerialize(IOEnv.OUT \o ".1", D1)
+        /\ (IOEnv.DEPTH2 = "1" => ndJsonSerialize(IOEnv.OUT \o ".2", D2))
         /\ k' = 1
 Spec == Init /\ [][Next]_k
 =============================================================================
